@@ -512,6 +512,8 @@ def run(ctx) -> None:
     # "of the requested size or curve": the size / curve / private flag the caller asked for reaches the generator unchanged
     from .common import forwarding_discipline
     ctx.guard(forwarding_discipline, "R18.8", ['crv', 'key_size', 'crv_or_size', 'private', 'key_type'], 15)
+    from .common import in_family as _inf
+    ctx.guard_as("R18.11", r20_1, Effects(ctx.eng.prog, ctx.eng.cg), {f for f in ctx.eng.prog.all_functions() if _inf(f, "jwe")})  # the fresh IV that is emitted is this message's own (no class-level segment containers)
     from .common import ignored_parameters
     ctx.guard(ignored_parameters, "R18.10", lambda f: "generate" in f.name, 20)  # "of the requested size or curve": the size / curve / flags asked for are not dropped on the way
     ctx.guard(r18_6)
